@@ -135,7 +135,7 @@ def cases(ctx):
     scopes = []
     for ci, progs in enumerate(configs):
         kind = ci % 2
-        cap = ctx.n(400, 25000)
+        cap = ctx.n(400, 3000)
         n = 0
         for sched, views, info in all_schedules(kind, progs, cap):
             case = [kind, progs, sched]
@@ -146,7 +146,7 @@ def cases(ctx):
         total += n
     ctx.notes["exhaustive"] = True
     ctx.notes["exhaustive_scope"] = "every schedule (one lock/event operation per step) of: " + "; ".join(scopes)
-    for i in range(ctx.n(200, 4000)):
+    for i in range(ctx.n(200, 2500)):
         progs = gen_progs(rng, rng.choice([3, 4, 5, 6, 8]))
         sched, views, _, info = run_schedule(i % 2, progs, rng=rng)
         case = [i % 2, progs, sched]
